@@ -5,7 +5,41 @@ Every Python value the verifier reasons about is a *typed z3 term*: a python-sid
 integer references in a component heap (one z3 array per field).  List / tuple / dict
 elements are boxed into the flat datatype `Val` (no nesting: containers are references).
 """
+import re
 import z3
+
+# ---- string literals ---------------------------------------------------------------------------------------------------------
+# z3 reads escape sequences inside string literals (`\\u005c`, `\\x41`, `\\u{..}`): a Python literal that *contains* such text (pickle's
+# own "\\u005c" escapes, for one) would silently denote a different string.  Every literal is therefore built with each backslash and
+# each non-printable / non-ASCII character written as `\\u{hex}`, and read back through the inverse.
+_z3_StringVal = z3.StringVal
+_z3_as_string = z3.SeqRef.as_string
+
+
+def _lit_escape(s):
+    return "".join(c if (32 <= ord(c) < 127 and c != "\\") else "\\u{%x}" % ord(c) for c in s)
+
+
+def _lit_unescape(s):
+    return re.sub(r"\\u\{([0-9a-fA-F]+)\}", lambda m: chr(int(m.group(1), 16)), s)
+
+
+def _safe_StringVal(s, ctx=None):
+    return _z3_StringVal(_lit_escape(s), ctx)
+
+
+def _safe_as_string(self):
+    r = _z3_as_string(self)
+    return _lit_unescape(r) if self.is_string_value() else r
+
+
+z3.StringVal = _safe_StringVal
+z3.SeqRef.as_string = _safe_as_string
+try:
+    import z3.z3 as _z3mod
+    _z3mod.StringVal = _safe_StringVal
+except Exception:  # noqa
+    pass
 
 BV8 = z3.BitVecSort(8)
 Bytes = z3.SeqSort(BV8)
